@@ -34,6 +34,12 @@ func observe(w *hdr.World, full bool, extraLabels ...string) string {
 		}
 		labels := map[string]bool{"G": true}
 		for l := range w.Submitted {
+			// headers removed by marking them invalid are neither best-chain history nor a side branch:
+			// what is still reported about them (a height left in the long-lived index) is outside
+			// what Clean / Save / Load promise to keep
+			if removed(w, l) && w.Tree.Get(hdr.RH(hdr.Get(l).Hash)) == nil {
+				continue
+			}
 			labels[l] = true
 		}
 		for _, l := range extraLabels {
